@@ -43,6 +43,9 @@ pub enum Op {
     LazyInsertAll(u8, u8, u8),
     LazyRemove(u8, u8),
     LazyExecLog,
+    /// the same closure, queued from a worker thread of a rayon pool (the push has returned
+    /// before the next operation starts, so its place in the order is defined)
+    LazyExecLogPool,
     LazyExecNested,
     LazyExecQueuesInsert(u8, u8),
     LazyExecCreateNow,
@@ -558,6 +561,15 @@ impl<'h, A: Kind, B: Kind, C: Kind> Run<'h, A, B, C> {
                 self.w
                     .read_resource::<LazyUpdate>()
                     .exec(move |_| sh.lock().unwrap().log.push(n));
+                self.m.queue.push_back(LazyAct::Log(n));
+            }
+            Op::LazyExecLogPool => {
+                let n = self.next_seq();
+                let sh = self.shared.clone();
+                let w = &self.w;
+                crate::util::shared_pool().install(move || {
+                    w.read_resource::<LazyUpdate>().exec(move |_| sh.lock().unwrap().log.push(n));
+                });
                 self.m.queue.push_back(LazyAct::Log(n));
             }
             Op::LazyExecNested => {
@@ -1406,6 +1418,14 @@ impl<'h, A: Kind, B: Kind, C: Kind> Run<'h, A, B, C> {
             // they must find the indices freed a moment ago
             v.extend([Op::LazyExecCreateNow, Op::LazyExecEntCreate]);
         }
+        if self.h.alphabet == Alphabet::E1 && self.h.prop == Prop::C02 && !self.h.triples && self.m.queue.is_empty() {
+            // deletions requested from inside maintain (one queued action at a time): a deferred
+            // request made there takes effect at the NEXT maintain, an immediate one at once
+            for s in 0..n {
+                v.push(Op::LazyExecEntDelete(s));
+                v.push(Op::LazyExecDeleteNow(s));
+            }
+        }
         if self.h.alphabet >= Alphabet::E2 {
             let nk = if self.h.alphabet == Alphabet::E3 { 2 } else { 3 };
             for s in 0..n {
@@ -1451,6 +1471,7 @@ impl<'h, A: Kind, B: Kind, C: Kind> Run<'h, A, B, C> {
                 }
             }
             v.push(Op::LazyExecLog);
+            v.push(Op::LazyExecLogPool);
             v.push(Op::LazyExecNested);
             v.push(Op::LazyExecObserve(0));
             v.push(Op::LazyExecMaintain);
@@ -1538,7 +1559,15 @@ impl<A: Kind, B: Kind, C: Kind> Hist<A, B, C>
             counters: r.counters.to_vec(),
             transcript: r.tr,
         };
-        drop(r);
+        if self.prop == Prop::C08 && ops.len() % 2 == 1 {
+            // the world dies while the thread unwinds from a panic in user code (not a destructor)
+            let _ = crate::util::catch(move || {
+                let _world_dies_during_unwinding = r;
+                panic!("user code panics while the world is alive");
+            });
+        } else {
+            drop(r);
+        }
         if self.prop == Prop::C08 && out.violation.is_none() {
             // every history ends with the world (queued lazy actions included) being dropped
             if let Some(e) = ledger_errors().into_iter().next() {
@@ -1693,18 +1722,37 @@ fn plan_inner(prop: Prop, thorough: bool) -> Vec<(usize, Config)> {
     use RegPath::*;
     let reg0 = [Register, Register, Register];
     match prop {
-        Prop::C01 | Prop::C02 | Prop::C17 => vec![(
-            0,
-            Config {
-                kinds_name: "",
-                name: "E1",
-                alphabet: Alphabet::E1,
-                n_create: if thorough { 6 } else { 5 },
-                reg: reg0,
-                triples: true,
-                max_depth: None,
-            },
-        )],
+        Prop::C01 | Prop::C02 | Prop::C17 => {
+            let mut v = vec![(
+                0,
+                Config {
+                    kinds_name: "",
+                    name: "E1",
+                    alphabet: Alphabet::E1,
+                    n_create: if thorough { 6 } else { 5 },
+                    reg: reg0,
+                    triples: true,
+                    max_depth: None,
+                },
+            )];
+            if prop == Prop::C02 {
+                // second exploration: few entities, plus deletions requested from inside maintain
+                // (lazy closures; this configuration is recognised by `triples: false`, see `enabled`)
+                v.push((
+                    0,
+                    Config {
+                        kinds_name: "",
+                        name: "E1 + deletions from inside maintain",
+                        alphabet: Alphabet::E1,
+                        n_create: if thorough { 5 } else { 4 },
+                        reg: reg0,
+                        triples: false,
+                        max_depth: None,
+                    },
+                ));
+            }
+            v
+        }
         Prop::C03 => {
             let n = if thorough { 5 } else { 3 };
             (0..6)
